@@ -623,6 +623,70 @@ func runC06Fragments(p *Prog, r *Report) {
 			return true
 		})
 	}
+	// the counter advances exactly where the fragment it counted is kept: an assignment
+	// `counter = X.NextPlaceholder` must be reached only after X's snippet was stored
+	nPairs := 0
+	for _, fn := range p.Funcs {
+		if fn.Body == nil || fn.Lit != nil || fn.Obj == nil {
+			continue
+		}
+		info := fn.Info()
+		ast.Inspect(fn.Body, func(m ast.Node) bool {
+			as, ok := m.(*ast.AssignStmt)
+			if !ok || len(as.Lhs) != 1 || len(as.Rhs) != 1 {
+				return true
+			}
+			sel, ok := ast.Unparen(as.Rhs[0]).(*ast.SelectorExpr)
+			if !ok || sel.Sel.Name != "NextPlaceholder" {
+				return true
+			}
+			if _, plain := ast.Unparen(as.Lhs[0]).(*ast.Ident); !plain {
+				return true
+			}
+			src := baseObj(info, sel.X)
+			if src == nil {
+				return true
+			}
+			// stores of the same value's Snippet in an accumulating position
+			var keeps []ast.Node
+			ast.Inspect(fn.Body, func(z ast.Node) bool {
+				s2, ok := z.(*ast.SelectorExpr)
+				if !ok || s2.Sel.Name != "Snippet" || baseObj(info, s2.X) != src {
+					return true
+				}
+				for c := p.Parent(s2); c != nil; c = p.Parent(c) {
+					if st, ok := c.(*ast.AssignStmt); ok {
+						keeps = append(keeps, st)
+						break
+					}
+					if _, ok := c.(ast.Stmt); ok {
+						break
+					}
+				}
+				return true
+			})
+			if len(keeps) == 0 {
+				return true
+			}
+			nPairs++
+			key := exprStr(as.Lhs[0]) + " = " + exprStr(as.Rhs[0])
+			okPair := false
+			for _, k := range keeps {
+				if fn.Dominates(k, as) || fn.BlockOf(k) == fn.BlockOf(as) {
+					okPair = true
+				}
+			}
+			if okPair {
+				r.Add("C06.counter-with-fragment", fn.Name, key, p.Pos(as), OK, "the counter advances only after the counted fragment was stored", false)
+			} else {
+				r.Add("C06.counter-with-fragment", fn.Name, key, p.Pos(as), Violated,
+					"the placeholder counter is advanced by "+exprStr(sel.X)+"'s tab stops on paths where its snippet is not kept (the store of "+exprStr(sel.X)+".Snippet does not precede this assignment on every path): the numbers of dropped fragments are skipped in the result", true)
+			}
+			return true
+		})
+	}
+	r.Counts["C06.counter-fragment-pairs"] = nPairs
+	r.ExpectMin("C06.counter-fragment-pairs", nPairs, 4)
 	r.Counts["C06.generators-with-running-counter"] = nFuncs
 	r.Counts["C06.generator-snippets"] = nLits
 	r.ExpectMin("C06.generators-with-running-counter", nFuncs, 2)
